@@ -7,6 +7,7 @@ inlined; external callees become uninterpreted ``call`` terms (a few numpy/panda
 modelled, see ``MODELS``) and are recorded in an ordered trace.  Nothing is executed.
 """
 import ast
+import copy
 import os
 from . import terms as T
 from .terms import C, Cdec, NONE, TRUE, FALSE
@@ -142,6 +143,7 @@ class Frame:
         self.pc = list(pc)              # enclosing branch conditions (stack)
         self.perm = []                  # conditions known to hold for the rest of the function
         self.ret_perm = []              # the subset established by an early *return*: later effects on heap objects happen only under them
+        self.alive = []                 # per enclosing loop iteration: conditions under which the iteration is still running (no continue / break taken)
         self.pending = []               # early returns: (cond, term)
         self.loops = list(loops)        # enclosing loop variables (terms)
         self.breaks = []                # stack of lists of (cond, env) for the innermost loop
@@ -178,7 +180,7 @@ class Frame:
         return f'{self.fn.path}:{getattr(node, "lineno", "?")}'
 
     def guard(self):
-        return T.and_(self.pc)
+        return T.and_(self.pc + [c for lvl in self.alive for c in lvl['conds']])
 
     # ------------------------------------------------------------------ running
     def run(self):
@@ -225,6 +227,8 @@ class Frame:
             return ('const', bool(v))
         if tag in ('dict', 'tuple', 'list'):
             return ('const', len(c[1]) > 0)
+        if tag in ('len', 'nrows'):
+            return T.not_(T.cmp_('Eq', C(0), c))          # a length is true when it is not zero
         if tag == 'table':
             return c
         if tag in ('funcref', 'partial', 'obj'):
@@ -420,6 +424,10 @@ class Frame:
             if dead_o in (BREAK, CONTINUE):
                 if self.breaks:
                     self.breaks[-1].append((dead_o, T.and_(self.pc + [dead_c]), env2 if o1 == FALL else env1))
+                if self.alive:
+                    # the rest of this iteration runs only where the jump was not taken (stated so that it also holds outside the enclosing branches)
+                    lvl = self.alive[-1]
+                    lvl['conds'].append(T.not_(T.and_(self.pc[lvl['base']:] + [dead_c])))
                 self.env = live_env
                 self.perm.append(live_c)
                 self.perm.extend(live_perm)
@@ -612,7 +620,11 @@ class Frame:
                 for elem_t, src in pairs:
                     self.loop_alias[elem_t.id] = ast.unparse(src)
                 self.breaks.append([])
+                self.alive.append({'base': len(self.pc), 'conds': []})
+                p0_ = len(self.perm)
                 out = self.block(s.body)
+                self.alive.pop()
+                del self.perm[p0_:]
                 for kind, cond, e_ in reversed(self.breaks.pop()):      # conditional `continue`: its state joins the end of this iteration
                     self.env = self.merge(cond, e_, self.env)
                 if out == CONTINUE:
@@ -632,13 +644,30 @@ class Frame:
             if s.orelse:
                 return self.block(s.orelse)
             return FALL
+        if _returns_inside(s.body) and not getattr(s, '_ret_rewritten', False):
+            # a `return X` inside the loop is a first-match exit: ret = X; found = True; break ... if found: return ret
+            n_ = self.ctx.fresh('loopret')
+            has, ret = f'__found_{n_}', f'__ret_{n_}'
+            loop = ast.For(target=s.target, iter=s.iter, body=[_ReturnToBreak(has, ret).visit(copy.deepcopy(b)) for b in s.body], orelse=s.orelse, lineno=s.lineno, col_offset=0)
+            loop._ret_rewritten = True
+            stmts = [ast.Assign([ast.Name(has, ast.Store())], ast.Constant(False), lineno=s.lineno), ast.Assign([ast.Name(ret, ast.Store())], ast.Constant(None), lineno=s.lineno),
+                     loop, ast.If(ast.Name(has, ast.Load()), [ast.Return(ast.Name(ret, ast.Load()), lineno=s.lineno)], [], lineno=s.lineno)]
+            for st_ in stmts:
+                ast.fix_missing_locations(st_)
+            return self.block(stmts)
         self._iter_guard = TRUE
         key, lv, elem = self.iter_binding(s.iter)
         it_guard = self._iter_guard
         assigned = _assigned_names(s.body)
         targets = _target_names(s.target)
         live_in = _read_before_write(s.body, targets)
-        carried = [n for n in assigned if n in self.env and n not in targets and n in live_in]
+        # a name assigned only under a condition keeps its earlier value in the iterations that skip the assignment: its value after the loop
+        # depends on the loop as a whole, like that of a name read before it is written
+        top_level = {t.id for st_ in s.body if isinstance(st_, (ast.Assign, ast.AnnAssign, ast.AugAssign))
+                     for t in (st_.targets if isinstance(st_, ast.Assign) else [st_.target]) for t in ast.walk(t) if isinstance(t, ast.Name)}
+        under_if = {t.id for st_ in s.body for i_ in ast.walk(st_) if isinstance(i_, ast.If) for a_ in ast.walk(i_) if isinstance(a_, (ast.Assign, ast.AugAssign))
+                    for t in (a_.targets if isinstance(a_, ast.Assign) else [a_.target]) for t in ast.walk(t) if isinstance(t, ast.Name) and isinstance(t.ctx, ast.Store)}
+        carried = [n for n in assigned if n in self.env and n not in targets and (n in live_in or (n in under_if and n not in top_level))]
         init = {n: self.env[n] for n in carried}
         depth = len(self.loops)
         for k, n in enumerate(carried):
@@ -649,7 +678,9 @@ class Frame:
         n0, p0 = len(self.pc), len(self.perm)
         if it_guard != TRUE:
             self.pc.append(it_guard)
+        self.alive.append({'base': len(self.pc), 'conds': []})
         out = self.block(s.body)
+        self.alive.pop()
         del self.pc[n0:]
         del self.perm[p0:]
         brks = self.breaks.pop()
@@ -662,7 +693,7 @@ class Frame:
                 brk_cond = T.or_([brk_cond, cond])
         self.env = env_end
         # x = zeros(n); for i in range(n): x[i] = v   ==   [v for i in range(n)]
-        if key[0] == 'range' and key[1] == C(0) and key[3] == C(1) and not brks and out == FALL:
+        if key[0] == 'range' and key[1] == C(0) and key[3] == C(1) and not any(kind == BREAK for kind, _c, _e in brks) and out == FALL:
             for nm, val in list(self.env.items()):
                 if val[0] == 'arr' and len(val[2]) == 1 and val[2][0][0] == lv and val[2][0][2] == T.and_(self.pc) and \
                         val[1][0] == 'call' and val[1][1] in ('zeros', 'ones', 'empty') and val[1][2] and val[1][2][0] == key[2]:
@@ -670,6 +701,10 @@ class Frame:
         for k, n in enumerate(carried):
             upd = self.env.get(n)
             me = ('carried', k, key, depth, init[n])
+            if upd is not None and upd[0] == 'gamma' and upd[3] == me and brk_cond != FALSE and upd[1] == brk_cond:
+                # updated only in the iteration that leaves the loop: until then the variable still holds its initial value (first-match search)
+                upd = T.gamma(upd[1], T.subst(upd[2], lambda y, me=me, v0=init[n]: v0 if y == me else None), me)
+                self.env[n] = upd
             if upd == me:
                 self.env[n] = init[n]
             elif upd is not None and upd[0] == 'arr' and upd[1] == me:
@@ -1224,6 +1259,9 @@ class Frame:
             if b[2][0] == 'table':       # positional / boolean row selection keeps the columns
                 if k[0] == 'rangeobj':
                     k = ('sl', k[1], k[2], NONE)
+                kk = T.strip_nd(k)
+                if b[1] == 'iloc' and kk[0] == 'call' and kk[1] == 'flatnonzero' and len(kk[2]) == 1 and (T._masklike(T.strip_nd(kk[2][0])) or T.is_boolarr(kk[2][0])):
+                    k = T.strip_nd(kk[2][0])             # the rows at the positions where a mask is set == the rows selected by the mask
                 return ('table', tuple((c, T.index(v, ('rowsel', k))) for c, v in b[2][1]), T.call('count', (k,)))
             return T.call('rowsel', (b[2], k), {'how': C(b[1])})
         if b[0] == 'table':
@@ -1526,6 +1564,37 @@ def _alias_pairs(target, it):
     if isinstance(target, ast.Name):
         return [(target, it)]
     return []
+
+
+def _returns_inside(body):
+    """a return statement somewhere in a loop body (not inside a nested function)"""
+    def walk(n):
+        for ch in ast.iter_child_nodes(n):
+            if isinstance(ch, (ast.FunctionDef, ast.AsyncFunctionDef, ast.Lambda, ast.ClassDef)):
+                continue
+            if isinstance(ch, ast.Return):
+                return True
+            if walk(ch):
+                return True
+        return False
+    return any(isinstance(b, ast.Return) or walk(b) for b in body)
+
+
+class _ReturnToBreak(ast.NodeTransformer):
+    def __init__(self, has, ret):
+        self.has, self.ret = has, ret
+
+    def visit_FunctionDef(self, n):
+        return n
+
+    visit_Lambda = visit_AsyncFunctionDef = visit_FunctionDef
+
+    def visit_For(self, n):
+        return n          # a return inside a nested loop leaves that loop first: handled when the nested loop is evaluated
+
+    def visit_Return(self, n):
+        return [ast.Assign([ast.Name(self.ret, ast.Store())], n.value if n.value is not None else ast.Constant(None), lineno=n.lineno),
+                ast.Assign([ast.Name(self.has, ast.Store())], ast.Constant(True), lineno=n.lineno), ast.Break(lineno=n.lineno)]
 
 
 def _assigned_names(body):
